@@ -124,12 +124,26 @@ inline bool merge(Ctx &c, const std::string &text){
 
 struct UnitDef { std::string name; std::vector<Cfg> cfgs; };
 
+// per-configuration watchdog of a child process. The limit is on the CPU time of the child (ITIMER_PROF, default action of SIGPROF = terminate), not on
+// wall-clock time: the slowest legitimate configuration (the 59049-point 1-D Fourier grid of C05: ~19 s under ASan, all of it in the library's O(N^2)
+// construction of the one dimensional rule) took more than a 20 s wall-clock limit on a slower / loaded machine and was reported as a hang. A runaway loop
+// burns CPU and is still stopped; a wall-clock alarm at 4x the limit remains as the fallback for a child that blocks without using CPU.
+inline void watchdog_arm(double cpu_seconds){
+    struct itimerval it; memset(&it, 0, sizeof(it));
+    it.it_value.tv_sec = (time_t) std::floor(cpu_seconds); it.it_value.tv_usec = (suseconds_t) ((cpu_seconds - std::floor(cpu_seconds)) * 1e6);
+    setitimer(ITIMER_PROF, &it, nullptr);
+    alarm(cpu_seconds > 0 ? (unsigned) std::ceil(4.0 * cpu_seconds) : 0u);
+}
+inline void watchdog_disarm(){ watchdog_arm(0.0); }
+inline double cpu_now(){ struct timespec ts; clock_gettime(CLOCK_PROCESS_CPUTIME_ID, &ts); return (double) ts.tv_sec + 1e-9 * (double) ts.tv_nsec; }
+inline bool is_hang(const vf::Outcome &o){ return (o.kind == vf::Outcome::TIMEOUT) || (o.kind == vf::Outcome::SIGNAL && (o.code == SIGALRM || o.code == SIGPROF)); }
+
 // runs all units (parallel workers; per unit: chunks of configurations in forked children with a watchdog)
 inline void run_all(const std::string &prop, const std::vector<UnitDef> &U, int workers, const std::string &bound, const std::string &hist_all,
                     const std::function<void(Ctx&, const Cfg&)> &explore, double per_cfg_timeout){
     size_t done = vf::parallel_units(U.size(), workers, [&](size_t ui){
         const UnitDef &u = U[ui]; Ctx c; c.unit = u.name; g_sigcount.clear(); g_signew.clear();
-        const std::vector<Cfg> &cfgs = u.cfgs; bool complete = true; size_t k = 0; double t0 = vf::now(); int ncrash = 0;
+        const std::vector<Cfg> &cfgs = u.cfgs; bool complete = true; size_t k = 0; double t0 = vf::now(); int ncrash = 0; double max_cpu = 0; size_t max_cpu_cfg = 0;
         const size_t CH = 48;
         while(k < cfgs.size()){
             if (vf::past_deadline()){ complete = false; break; }
@@ -139,19 +153,21 @@ inline void run_all(const std::string &prop, const std::vector<UnitDef> &U, int 
                 g_label_fd = fd;
                 for(size_t q=start; q<end; q++){
                     if (vf::past_deadline()) break;
-                    Ctx cc; cc.unit = c.unit; cc.nviol = c.nviol; alarm((unsigned) std::ceil(per_cfg_timeout)); explore(cc, cfgs[q]); alarm(0);
+                    Ctx cc; cc.unit = c.unit; cc.nviol = c.nviol; double cpu0 = cpu_now(); watchdog_arm(per_cfg_timeout); explore(cc, cfgs[q]); watchdog_disarm();
+                    { std::ostringstream tt; tt << "T " << (cpu_now() - cpu0) << "\n"; vf::wr(fd, tt.str()); }
                     std::ostringstream r; r << "D " << cc.evals << " " << cc.states << " " << cc.transitions << " " << cc.execs << " " << cc.skipped << " " << (cc.nviol - c.nviol);
                     for(auto &dg : cc.distinct) r << " " << dg; r << "\n";
                     for(auto &kv : cc.outcomes) r << "O " << kv.second << " " << kv.first << "\n";
                     for(auto &kv : g_signew) r << "V " << kv.second << " " << kv.first << "\n"; g_signew.clear();
                     r << "E\n"; vf::wr(fd, r.str());
                 }
-            }, 30.0 + per_cfg_timeout * (double)(end - start));
+            }, 30.0 + 4.0 * per_cfg_timeout * (double)(end - start));
             // parse: a configuration is finished when its "E" line arrived
             size_t ndone = 0; std::string last_label; { std::istringstream in(o.out); std::string line; Ctx pend; bool have = false;
                 while(std::getline(in, line)){
                     if (line.empty()) continue;
                     if (line[0] == 'S'){ last_label = line.size() > 2 ? line.substr(2) : ""; continue; }
+                    if (line[0] == 'T'){ double tc = atof(line.c_str() + 1); if (tc > max_cpu){ max_cpu = tc; max_cpu_cfg = start + ndone; } continue; }
                     if (line[0] == 'V'){ std::istringstream ls(line.substr(2)); int nn = 0; ls >> nn; std::string sg; std::getline(ls, sg); if (!sg.empty() && sg[0] == ' ') sg = sg.substr(1); g_sigcount[sg] += nn; continue; }
                     if (line[0] == 'D'){ pend = Ctx(); have = true; std::istringstream ls(line.substr(2)); long nv = 0; ls >> pend.evals >> pend.states >> pend.transitions >> pend.execs >> pend.skipped >> nv; pend.nviol = (int) nv; std::string dg; while(ls >> dg) pend.distinct.insert(dg); }
                     else if (line[0] == 'O' && have){ std::istringstream ls(line.substr(2)); long n = 0; ls >> n; std::string key; std::getline(ls, key); if (!key.empty() && key[0] == ' ') key = key.substr(1); pend.outcomes[key] += n; }
@@ -160,13 +176,14 @@ inline void run_all(const std::string &prop, const std::vector<UnitDef> &U, int 
             k = start + ndone;
             if (o.kind != vf::Outcome::OK && k < end){
                 const Cfg &cfg = cfgs[k]; std::string cls = (o.kind == vf::Outcome::SANITIZER) ? o.sanitizer_class() : o.describe(); c.states++; c.execs++;
-                bool hung = (o.kind == vf::Outcome::TIMEOUT) || (o.kind == vf::Outcome::SIGNAL && o.code == SIGALRM); if (hung) cls = "timeout";
+                bool hung = is_hang(o); if (hung) cls = "timeout";
                 std::string what = hung ? "hang" : "crash";
                 report(c, prop + ":" + what + ":" + (last_label.empty() ? rtag(cfg) : last_label) + ":" + cls, cfg, hist_all, o.describe() + ": " + o.err.substr(0, 1500)); g_signew.clear(); k++; ncrash++;
                 c.outcomes[what + ":" + std::string(famname(cfg.fam))]++;
             }else if (k < end && !vf::past_deadline()){ vf::emit(vf::J().s("t","error").s("what","child stopped early without failure")); k = end; }
         }
-        vf::emit(vf::J().s("t","unit").s("unit", c.unit).i("states", c.states).i("transitions", c.transitions).i("execs", c.execs).i("evals", c.evals).i("distinct", (long long) c.distinct.size()).i("skipped", c.skipped).i("violations", c.nviol).i("configs", (long long) k).n("wall", vf::now() - t0).b("complete", complete));
+        vf::emit(vf::J().s("t","unit").s("unit", c.unit).i("states", c.states).i("transitions", c.transitions).i("execs", c.execs).i("evals", c.evals).i("distinct", (long long) c.distinct.size()).i("skipped", c.skipped).i("violations", c.nviol).i("configs", (long long) k).n("wall", vf::now() - t0).n("max_cfg_cpu_s", max_cpu).b("complete", complete));
+        if (max_cpu > 0.4 * per_cfg_timeout && max_cpu_cfg < cfgs.size()){ std::ostringstream nt; nt.precision(3); nt << c.unit << ": slowest configuration used " << max_cpu << " s of CPU time (watchdog " << per_cfg_timeout << " s): " << cfgs[max_cpu_cfg].str(); vf::emit(vf::J().s("t","note").s("text", nt.str())); }
         for(auto &kv : c.outcomes) vf::emit(vf::J().s("t","outcome").s("key", kv.first).i("n", kv.second));
         if (k > 0) vf::emit(vf::J().s("t","sample").raw("case", vf::J().s("cfg", cfgs[k/2].str()).s("hist", hist_all).str()));
         if (!complete) vf::emit(vf::J().s("t","incomplete").s("unit", c.unit));
@@ -175,12 +192,12 @@ inline void run_all(const std::string &prop, const std::vector<UnitDef> &U, int 
 }
 
 // --replay: the whole configuration (all of its histories) is re-executed in one child
-inline int run_replay(const std::string &prop, const std::string &file, const std::string &hist_all, const std::function<void(Ctx&, const Cfg&)> &explore, double per_cfg_timeout = 20.0){
+inline int run_replay(const std::string &prop, const std::string &file, const std::string &hist_all, const std::function<void(Ctx&, const Cfg&)> &explore, double per_cfg_timeout = 600.0){
     std::string v = vf::slurp(file); std::string cs = vf::jget(v, "case"); Cfg cfg = Cfg::parse(vf::jget(cs, "cfg"));
     Ctx c; c.unit = "replay";
-    vf::Outcome o = vf::run_child([&](int fd){ g_label_fd = fd; Ctx cc; cc.unit = "replay"; alarm((unsigned) std::ceil(per_cfg_timeout)); explore(cc, cfg); alarm(0); vf::wr(fd, "N " + std::to_string(cc.nviol) + "\n"); }, 600.0);
+    vf::Outcome o = vf::run_child([&](int fd){ g_label_fd = fd; Ctx cc; cc.unit = "replay"; watchdog_arm(per_cfg_timeout); explore(cc, cfg); watchdog_disarm(); vf::wr(fd, "N " + std::to_string(cc.nviol) + "\n"); }, 60.0 + 4.0 * per_cfg_timeout);
     std::string last_label; { std::istringstream in(o.out); std::string line; while(std::getline(in, line)) if (!line.empty() && line[0] == 'S') last_label = line.size() > 2 ? line.substr(2) : ""; }
-    if (o.kind != vf::Outcome::OK){ std::string cls = (o.kind == vf::Outcome::SANITIZER) ? o.sanitizer_class() : o.describe(); bool hung = (o.kind == vf::Outcome::TIMEOUT) || (o.kind == vf::Outcome::SIGNAL && o.code == SIGALRM); if (hung) cls = "timeout"; std::string what = hung ? "hang" : "crash";
+    if (o.kind != vf::Outcome::OK){ std::string cls = (o.kind == vf::Outcome::SANITIZER) ? o.sanitizer_class() : o.describe(); bool hung = is_hang(o); if (hung) cls = "timeout"; std::string what = hung ? "hang" : "crash";
         report(c, prop + ":" + what + ":" + (last_label.empty() ? rtag(cfg) : last_label) + ":" + cls, cfg, hist_all, o.describe() + ": " + o.err.substr(0, 1500)); }
     vf::emit(vf::J().s("t","summary").s("replay", o.describe())); return 0;
 }
